@@ -15,10 +15,10 @@ import (
 // Helpers added for the quic rule files (C19-C21, C25-C27). Nothing here
 // changes the behaviour of the existing engines.
 
-// resultAllocs maps the result slots of fn that are returned through a
+// qaResultAllocs maps the result slots of fn that are returned through a
 // local (named results, or the synthetic slot go/ssa creates when the
 // function has a defer) to those locals.
-func resultAllocs(fn *ssa.Function) map[int]map[*ssa.Alloc]bool {
+func qaResultAllocs(fn *ssa.Function) map[int]map[*ssa.Alloc]bool {
 	out := map[int]map[*ssa.Alloc]bool{}
 	eachInstr(fn, func(in ssa.Instruction) {
 		r, ok := in.(*ssa.Return)
@@ -39,13 +39,13 @@ func resultAllocs(fn *ssa.Function) map[int]map[*ssa.Alloc]bool {
 	return out
 }
 
-// ResultIs selects the places where result i of the function is given a
+// QaResultIs selects the places where result i of the function is given a
 // value rendering as term: a return instruction carrying it directly, or a
 // store into the result slot (functions with named results or a defer).
-func ResultIs(i int, term string) Sel {
+func QaResultIs(i int, term string) Sel {
 	return Sel{fmt.Sprintf("result #%d=%s", i, term), func(p *Prog, fn *ssa.Function) []ssa.Instruction {
 		var out []ssa.Instruction
-		ra := resultAllocs(fn)
+		ra := qaResultAllocs(fn)
 		eachInstr(fn, func(in ssa.Instruction) {
 			switch x := in.(type) {
 			case *ssa.Return:
@@ -62,22 +62,22 @@ func ResultIs(i int, term string) Sel {
 	}}
 }
 
-// ResultNilErr selects the places where the error result becomes nil.
-func ResultNilErr() Sel {
+// QaResultNilErr selects the places where the error result becomes nil.
+func QaResultNilErr() Sel {
 	return Sel{"error result = nil", func(p *Prog, fn *ssa.Function) []ssa.Instruction {
 		res := fn.Signature.Results()
 		for i := res.Len() - 1; i >= 0; i-- {
 			if isErrorType(res.At(i).Type()) {
-				return ResultIs(i, "nil").F(p, fn)
+				return QaResultIs(i, "nil").F(p, fn)
 			}
 		}
 		return nil
 	}}
 }
 
-// GuardAny: every selected site is dominated by branch edges establishing
+// QaGuardAny: every selected site is dominated by branch edges establishing
 // all atoms of at least one alternative.
-func (c *Ctx) GuardAny(fnName string, sel Sel, alts ...[]string) bool {
+func (c *Ctx) QaGuardAny(fnName string, sel Sel, alts ...[]string) bool {
 	rule := "guard-before"
 	var names []string
 	for _, a := range alts {
@@ -121,8 +121,8 @@ func (c *Ctx) GuardAny(fnName string, sel Sel, alts ...[]string) bool {
 	return true
 }
 
-// IsLoadOf is a predicate: the value is a load of the named field.
-func (p *Prog) IsLoadOf(field string) func(ssa.Value) bool {
+// QaIsLoadOf is a predicate: the value is a load of the named field.
+func (p *Prog) QaIsLoadOf(field string) func(ssa.Value) bool {
 	fv := p.Field(field)
 	return func(v ssa.Value) bool {
 		if fv == nil {
@@ -140,16 +140,16 @@ func (p *Prog) IsLoadOf(field string) func(ssa.Value) bool {
 	}
 }
 
-// IsAddrOf is a predicate: the value is the address of the named field.
-func (p *Prog) IsAddrOf(field string) func(ssa.Value) bool {
+// QaIsAddrOf is a predicate: the value is the address of the named field.
+func (p *Prog) QaIsAddrOf(field string) func(ssa.Value) bool {
 	fv := p.Field(field)
 	return func(v ssa.Value) bool { return fv != nil && fieldOfAddr(v) == fv }
 }
 
-// Paired: every `a` site is accompanied by a `b` site on the same path, in
+// QaPaired: every `a` site is accompanied by a `b` site on the same path, in
 // either order: it is dominated by a b site or every path from it to a
 // normal return passes a b site.
-func (c *Ctx) Paired(fnName string, a, b Sel) bool {
+func (c *Ctx) QaPaired(fnName string, a, b Sel) bool {
 	rule := "paired"
 	construct := fmt.Sprintf("%s: every [%s] has a [%s] on the same path", fnName, a.Name, b.Name)
 	fn, ins := c.sites(rule, fnName, a)
@@ -185,14 +185,14 @@ func (c *Ctx) Paired(fnName string, a, b Sel) bool {
 	return true
 }
 
-// ConstSet evaluates v to the finite set of integer constants it can take
+// QaConstSet evaluates v to the finite set of integer constants it can take
 // (constants, phis, conversions, | & &^ + of such sets). ok=false when v is
 // not of that form.
-func ConstSet(v ssa.Value) (map[int64]bool, bool) {
-	return constSet(v, map[ssa.Value]bool{}, 0)
+func QaConstSet(v ssa.Value) (map[int64]bool, bool) {
+	return qaConstSet(v, map[ssa.Value]bool{}, 0)
 }
 
-func constSet(v ssa.Value, busy map[ssa.Value]bool, d int) (map[int64]bool, bool) {
+func qaConstSet(v ssa.Value, busy map[ssa.Value]bool, d int) (map[int64]bool, bool) {
 	if d > 12 {
 		return nil, false
 	}
@@ -207,9 +207,9 @@ func constSet(v ssa.Value, busy map[ssa.Value]bool, d int) (map[int64]bool, bool
 		i, ok := constant.Int64Val(x.Value)
 		return map[int64]bool{i: true}, ok
 	case *ssa.Convert:
-		return constSet(x.X, busy, d+1)
+		return qaConstSet(x.X, busy, d+1)
 	case *ssa.ChangeType:
-		return constSet(x.X, busy, d+1)
+		return qaConstSet(x.X, busy, d+1)
 	case *ssa.Phi:
 		if busy[x] {
 			return map[int64]bool{}, true
@@ -218,7 +218,7 @@ func constSet(v ssa.Value, busy map[ssa.Value]bool, d int) (map[int64]bool, bool
 		defer delete(busy, x)
 		out := map[int64]bool{}
 		for _, e := range x.Edges {
-			s, ok := constSet(e, busy, d+1)
+			s, ok := qaConstSet(e, busy, d+1)
 			if !ok {
 				return nil, false
 			}
@@ -228,8 +228,8 @@ func constSet(v ssa.Value, busy map[ssa.Value]bool, d int) (map[int64]bool, bool
 		}
 		return out, true
 	case *ssa.BinOp:
-		a, ok1 := constSet(x.X, busy, d+1)
-		b, ok2 := constSet(x.Y, busy, d+1)
+		a, ok1 := qaConstSet(x.X, busy, d+1)
+		b, ok2 := qaConstSet(x.Y, busy, d+1)
 		if !ok1 || !ok2 || len(a)*len(b) > 256 {
 			return nil, false
 		}
@@ -257,8 +257,8 @@ func constSet(v ssa.Value, busy map[ssa.Value]bool, d int) (map[int64]bool, bool
 	return nil, false
 }
 
-// SortedInts renders a set in ascending order as hexadecimal numbers.
-func SortedInts(s map[int64]bool) string {
+// QaSortedInts renders a set in ascending order as hexadecimal numbers.
+func QaSortedInts(s map[int64]bool) string {
 	var ks []int64
 	for k := range s {
 		ks = append(ks, k)
@@ -271,16 +271,16 @@ func SortedInts(s map[int64]bool) string {
 	return strings.Join(ss, ",")
 }
 
-// ByteSwitch describes one case clause of an expression switch over a
+// QaByteSwitch describes one case clause of an expression switch over a
 // non-enum value: the constant case values and the clause body.
-type ByteSwitch struct {
+type QaByteSwitch struct {
 	Vals map[int64]bool
 	Body []ast.Stmt
 }
 
-// SwitchOnCall returns the clauses of the first expression switch in fnName
+// QaSwitchOnCall returns the clauses of the first expression switch in fnName
 // whose tag (or init statement value) is a call of a method named method.
-func (p *Prog) SwitchOnCall(fnName, method string) (clauses []ByteSwitch, hasDefault bool, found bool) {
+func (p *Prog) QaSwitchOnCall(fnName, method string) (clauses []QaByteSwitch, hasDefault bool, found bool) {
 	fn := p.Fn(fnName)
 	if fn == nil || fn.Syntax() == nil {
 		return nil, false, false
@@ -320,7 +320,7 @@ func (p *Prog) SwitchOnCall(fnName, method string) (clauses []ByteSwitch, hasDef
 				hasDefault = true
 				continue
 			}
-			bs := ByteSwitch{Vals: map[int64]bool{}, Body: cc.Body}
+			bs := QaByteSwitch{Vals: map[int64]bool{}, Body: cc.Body}
 			for _, e := range cc.List {
 				if tv, ok := pk.TypesInfo.Types[e]; ok && tv.Value != nil {
 					if i, ok := constant.Int64Val(constant.ToInt(tv.Value)); ok {
@@ -335,9 +335,9 @@ func (p *Prog) SwitchOnCall(fnName, method string) (clauses []ByteSwitch, hasDef
 	return clauses, hasDefault, found
 }
 
-// MethodCallsIn lists, in source order, the names of methods among names
+// QaMethodCallsIn lists, in source order, the names of methods among names
 // that the statements call (selector calls x.name(...)), closures excluded.
-func MethodCallsIn(body []ast.Stmt, names ...string) []string {
+func QaMethodCallsIn(body []ast.Stmt, names ...string) []string {
 	want := map[string]bool{}
 	for _, n := range names {
 		want[n] = true
@@ -368,15 +368,15 @@ func MethodCallsIn(body []ast.Stmt, names ...string) []string {
 	return out
 }
 
-// fieldLin is the linear form consisting of the location addr denotes.
-func fieldLin(addr ssa.Value) Lin {
+// qaFieldLin is the linear form consisting of the location addr denotes.
+func qaFieldLin(addr ssa.Value) Lin {
 	r := &renderer{phis: map[*ssa.Phi]bool{}}
 	return Lin{Coef: map[string]int64{r.deref(addr): 1}}
 }
 
-// isLoadFrom reports whether v loads the location addr denotes (same
+// qaIsLoadFrom reports whether v loads the location addr denotes (same
 // canonical rendering).
-func isLoadFrom(v ssa.Value, addr ssa.Value) bool {
+func qaIsLoadFrom(v ssa.Value, addr ssa.Value) bool {
 	u, ok := v.(*ssa.UnOp)
 	if !ok || u.Op != token.MUL {
 		return false
@@ -386,8 +386,8 @@ func isLoadFrom(v ssa.Value, addr ssa.Value) bool {
 	return r.deref(u.X) == r2.deref(addr)
 }
 
-// builtinCall returns the arguments when v is a call of the named builtin.
-func builtinCall(v ssa.Value, name string) ([]ssa.Value, bool) {
+// qaBuiltinCall returns the arguments when v is a call of the named builtin.
+func qaBuiltinCall(v ssa.Value, name string) ([]ssa.Value, bool) {
 	c, ok := v.(*ssa.Call)
 	if !ok {
 		return nil, false
@@ -399,7 +399,7 @@ func builtinCall(v ssa.Value, name string) ([]ssa.Value, bool) {
 	return c.Call.Args, true
 }
 
-func stripConv_quica(v ssa.Value) ssa.Value {
+func qaStripConv(v ssa.Value) ssa.Value {
 	for {
 		switch x := v.(type) {
 		case *ssa.Convert:
@@ -412,7 +412,7 @@ func stripConv_quica(v ssa.Value) ssa.Value {
 	}
 }
 
-// StoreShape classifies how a store updates its location.
+// QaStoreShape classifies how a store updates its location.
 //
 //	"max"      new = max(old, …)
 //	"guarded"  the store is dominated by the test new > old
@@ -422,19 +422,19 @@ func stripConv_quica(v ssa.Value) ssa.Value {
 //	"dec-floor0:T" new = max(0, old − T)
 //	"const:K"  new is the constant K
 //	"other"
-func StoreShape(st *ssa.Store) string {
-	v := stripConv_quica(st.Val)
-	if args, ok := builtinCall(v, "max"); ok {
+func QaStoreShape(st *ssa.Store) string {
+	v := qaStripConv(st.Val)
+	if args, ok := qaBuiltinCall(v, "max"); ok {
 		for _, a := range args {
-			if isLoadFrom(stripConv_quica(a), st.Addr) {
+			if qaIsLoadFrom(qaStripConv(a), st.Addr) {
 				return "max"
 			}
 		}
 		// max(0, old - T)
 		if len(args) == 2 {
 			for i, a := range args {
-				if s, ok := ConstSet(a); ok && len(s) == 1 && s[0] {
-					if b, ok := stripConv_quica(args[1-i]).(*ssa.BinOp); ok && b.Op == token.SUB && isLoadFrom(stripConv_quica(b.X), st.Addr) {
+				if s, ok := QaConstSet(a); ok && len(s) == 1 && s[0] {
+					if b, ok := qaStripConv(args[1-i]).(*ssa.BinOp); ok && b.Op == token.SUB && qaIsLoadFrom(qaStripConv(b.X), st.Addr) {
 						return "dec-floor0:" + Term(b.Y)
 					}
 				}
@@ -442,16 +442,16 @@ func StoreShape(st *ssa.Store) string {
 		}
 	}
 	// guarded by new > old :  old - new + 1 <= 0
-	want := fieldLin(st.Addr).add(Linearize(st.Val), -1)
+	want := qaFieldLin(st.Addr).add(Linearize(st.Val), -1)
 	want.K++
 	if holds(FactsAtInstr(st), Atom{LE, want}, true) {
 		return "guarded"
 	}
 	if b, ok := v.(*ssa.BinOp); ok && b.Op == token.ADD {
 		for i, side := range []ssa.Value{b.X, b.Y} {
-			if isLoadFrom(stripConv_quica(side), st.Addr) {
+			if qaIsLoadFrom(qaStripConv(side), st.Addr) {
 				other := []ssa.Value{b.Y, b.X}[i]
-				if s, ok := ConstSet(other); ok && len(s) == 1 {
+				if s, ok := QaConstSet(other); ok && len(s) == 1 {
 					for k := range s {
 						if k > 0 {
 							return "inc"
@@ -462,10 +462,10 @@ func StoreShape(st *ssa.Store) string {
 			}
 		}
 	}
-	if b, ok := v.(*ssa.BinOp); ok && b.Op == token.SUB && isLoadFrom(stripConv_quica(b.X), st.Addr) {
+	if b, ok := v.(*ssa.BinOp); ok && b.Op == token.SUB && qaIsLoadFrom(qaStripConv(b.X), st.Addr) {
 		return "sub:" + Linearize(b.Y).String()
 	}
-	if s, ok := ConstSet(v); ok && len(s) == 1 {
+	if s, ok := QaConstSet(v); ok && len(s) == 1 {
 		for k := range s {
 			return fmt.Sprintf("const:%d", k)
 		}
@@ -473,9 +473,9 @@ func StoreShape(st *ssa.Store) string {
 	return "other"
 }
 
-// StoreShapes: every store to field inside fnName has one of the allowed
-// shapes (see StoreShape; an allowed entry ending in ":" matches any suffix).
-func (c *Ctx) StoreShapes(fnName, field string, allowed ...string) bool {
+// QaStoreShapes: every store to field inside fnName has one of the allowed
+// shapes (see QaStoreShape; an allowed entry ending in ":" matches any suffix).
+func (c *Ctx) QaStoreShapes(fnName, field string, allowed ...string) bool {
 	rule := "store-shape"
 	construct := fmt.Sprintf("%s: stores to %s are of shape {%s}", fnName, field, strings.Join(allowed, ", "))
 	_, ins := c.sites(rule, fnName, Stores(field))
@@ -484,7 +484,7 @@ func (c *Ctx) StoreShapes(fnName, field string, allowed ...string) bool {
 	}
 	var got []string
 	for _, in := range ins {
-		sh := StoreShape(in.(*ssa.Store))
+		sh := QaStoreShape(in.(*ssa.Store))
 		ok := false
 		for _, a := range allowed {
 			if sh == a || strings.HasSuffix(a, ":") && strings.HasPrefix(sh, a) {
@@ -501,9 +501,9 @@ func (c *Ctx) StoreShapes(fnName, field string, allowed ...string) bool {
 	return true
 }
 
-// Under filters a selector to the sites whose block is dominated by a
+// QaUnder filters a selector to the sites whose block is dominated by a
 // branch establishing the atom.
-func (c *Ctx) Under_quica(s Sel, spec string) Sel {
+func (c *Ctx) QaUnder(s Sel, spec string) Sel {
 	return Sel{s.Name + " under " + stripSpaces(spec), func(p *Prog, fn *ssa.Function) []ssa.Instruction {
 		a, err := p.ParseAtom(spec)
 		if err != nil {
@@ -519,8 +519,8 @@ func (c *Ctx) Under_quica(s Sel, spec string) Sel {
 	}}
 }
 
-// ReachableFrom is Reachable keyed by function name.
-func (p *Prog) ReachableFrom(entries ...string) (map[string]bool, []string) {
+// QaReachableFrom is Reachable keyed by function name.
+func (p *Prog) QaReachableFrom(entries ...string) (map[string]bool, []string) {
 	m, missing := p.Reachable(entries, nil)
 	out := map[string]bool{}
 	for f := range m {
@@ -529,9 +529,9 @@ func (p *Prog) ReachableFrom(entries ...string) (map[string]bool, []string) {
 	return out, missing
 }
 
-// CallsInOrder lists the call instructions of fn (closures excluded) in
+// QaCallsInOrder lists the call instructions of fn (closures excluded) in
 // block/instruction order restricted to the named callees.
-func (p *Prog) CallsInOrder(fn *ssa.Function, names ...string) []*ssa.Call {
+func (p *Prog) QaCallsInOrder(fn *ssa.Function, names ...string) []*ssa.Call {
 	var out []*ssa.Call
 	eachInstr(fn, func(in ssa.Instruction) {
 		if c, ok := in.(*ssa.Call); ok && matchCallee(&c.Call, names) {
@@ -542,8 +542,8 @@ func (p *Prog) CallsInOrder(fn *ssa.Function, names ...string) []*ssa.Call {
 	return out
 }
 
-// CallsParam selects calls of the function-typed parameter $i.
-func CallsParam_quica(i int) Sel {
+// QaCallsParam selects calls of the function-typed parameter $i.
+func QaCallsParam(i int) Sel {
 	want := fmt.Sprintf("$%d", i)
 	return Sel{"call of parameter " + want, func(p *Prog, fn *ssa.Function) []ssa.Instruction {
 		var out []ssa.Instruction
@@ -558,10 +558,10 @@ func CallsParam_quica(i int) Sel {
 	}}
 }
 
-// MinWith is a predicate: the value is min(…) with an operand rendering as term.
-func MinWith(term string) func(ssa.Value) bool {
+// QaMinWith is a predicate: the value is min(…) with an operand rendering as term.
+func QaMinWith(term string) func(ssa.Value) bool {
 	return func(v ssa.Value) bool {
-		args, ok := builtinCall(stripConv_quica(v), "min")
+		args, ok := qaBuiltinCall(qaStripConv(v), "min")
 		if !ok {
 			return false
 		}
@@ -574,10 +574,10 @@ func MinWith(term string) func(ssa.Value) bool {
 	}
 }
 
-// ArgSatisfies: argument idx of every selected call itself satisfies pred
+// QaArgSatisfies: argument idx of every selected call itself satisfies pred
 // (conversions stripped) — unlike ArgFrom, which searches the whole
 // backward closure.
-func (c *Ctx) ArgSatisfies(fnName string, sel Sel, idx int, desc string, pred func(ssa.Value) bool) bool {
+func (c *Ctx) QaArgSatisfies(fnName string, sel Sel, idx int, desc string, pred func(ssa.Value) bool) bool {
 	rule := "arg-shape"
 	construct := fmt.Sprintf("%s: arg%d of [%s] is %s", fnName, idx, sel.Name, desc)
 	_, ins := c.sites(rule, fnName, sel)
@@ -590,7 +590,7 @@ func (c *Ctx) ArgSatisfies(fnName string, sel Sel, idx int, desc string, pred fu
 			c.Undecided(rule, construct, "site is not a call with that many arguments")
 			return false
 		}
-		if !pred(stripConv_quica(ci.Common().Args[idx])) {
+		if !pred(qaStripConv(ci.Common().Args[idx])) {
 			c.Fail(rule, construct, InstrPos(in), fmt.Sprintf("argument `%s` is not %s", Term(ci.Common().Args[idx]), desc))
 			return false
 		}
@@ -599,8 +599,8 @@ func (c *Ctx) ArgSatisfies(fnName string, sel Sel, idx int, desc string, pred fu
 	return true
 }
 
-// StoredSatisfies: the value of every selected store satisfies pred.
-func (c *Ctx) StoredSatisfies(fnName string, sel Sel, desc string, pred func(ssa.Value) bool) bool {
+// QaStoredSatisfies: the value of every selected store satisfies pred.
+func (c *Ctx) QaStoredSatisfies(fnName string, sel Sel, desc string, pred func(ssa.Value) bool) bool {
 	rule := "stored-shape"
 	construct := fmt.Sprintf("%s: value of [%s] is %s", fnName, sel.Name, desc)
 	_, ins := c.sites(rule, fnName, sel)
@@ -613,7 +613,7 @@ func (c *Ctx) StoredSatisfies(fnName string, sel Sel, desc string, pred func(ssa
 			c.Undecided(rule, construct, "site is not a store")
 			return false
 		}
-		if !pred(stripConv_quica(st.Val)) {
+		if !pred(qaStripConv(st.Val)) {
 			c.Fail(rule, construct, InstrPos(in), fmt.Sprintf("stored value `%s` is not %s", Term(st.Val), desc))
 			return false
 		}
@@ -622,8 +622,8 @@ func (c *Ctx) StoredSatisfies(fnName string, sel Sel, desc string, pred func(ssa
 	return true
 }
 
-// ObjOfFieldStore returns the object whose field a store writes (x in x.f = v).
-func ObjOfFieldStore(in ssa.Instruction) ssa.Value {
+// QaObjOfFieldStore returns the object whose field a store writes (x in x.f = v).
+func QaObjOfFieldStore(in ssa.Instruction) ssa.Value {
 	if st, ok := in.(*ssa.Store); ok {
 		if fa, ok := st.Addr.(*ssa.FieldAddr); ok {
 			return fa.X
@@ -632,18 +632,18 @@ func ObjOfFieldStore(in ssa.Instruction) ssa.Value {
 	return nil
 }
 
-// SameObjFieldIs reports whether the facts dominating `at` include
+// QaSameObjFieldIs reports whether the facts dominating `at` include
 // obj.field == k for the object obj (compared by canonical rendering).
-func (p *Prog) SameObjFieldIs(at ssa.Instruction, obj ssa.Value, field string, k int64) bool {
+func (p *Prog) QaSameObjFieldIs(at ssa.Instruction, obj ssa.Value, field string, k int64) bool {
 	i := strings.LastIndex(field, ".")
 	r := &renderer{phis: map[*ssa.Phi]bool{}}
 	l := Lin{Coef: map[string]int64{r.base(obj) + "." + field[i+1:]: 1}, K: -k}
 	return holds(FactsAtInstr(at), Atom{EQ, l}.norm(), true)
 }
 
-// TypestateStores: every store of one of the constants newVals to field in
+// QaTypestateStores: every store of one of the constants newVals to field in
 // fnName is dominated by the test  <same object>.field == old.
-func (c *Ctx) TypestateStores(fnName, field string, old int64, newVals ...int64) bool {
+func (c *Ctx) QaTypestateStores(fnName, field string, old int64, newVals ...int64) bool {
 	rule := "typestate"
 	construct := fmt.Sprintf("%s: %s leaves state %d only from a test of the same object", fnName, field, old)
 	_, ins := c.sites(rule, fnName, Stores(field))
@@ -653,7 +653,7 @@ func (c *Ctx) TypestateStores(fnName, field string, old int64, newVals ...int64)
 	n := 0
 	for _, in := range ins {
 		st := in.(*ssa.Store)
-		s, ok := ConstSet(st.Val)
+		s, ok := QaConstSet(st.Val)
 		if !ok {
 			c.Fail(rule, construct, InstrPos(in), fmt.Sprintf("store `%s` of a non-constant state", DescribeInstr(in)))
 			return false
@@ -668,7 +668,7 @@ func (c *Ctx) TypestateStores(fnName, field string, old int64, newVals ...int64)
 			continue
 		}
 		n++
-		if !c.P.SameObjFieldIs(in, ObjOfFieldStore(in), field, old) {
+		if !c.P.QaSameObjFieldIs(in, QaObjOfFieldStore(in), field, old) {
 			c.Fail(rule, construct, InstrPos(in), fmt.Sprintf("store `%s` is not dominated by a test that the same object is in state %d; facts here: {%s}", DescribeInstr(in), old, factStrings(FactsAtInstr(in))))
 			return false
 		}
@@ -681,10 +681,10 @@ func (c *Ctx) TypestateStores(fnName, field string, old int64, newVals ...int64)
 	return true
 }
 
-// SameObjAfter: from every selected field store x.f = v, every path to a
+// QaSameObjAfter: from every selected field store x.f = v, every path to a
 // normal return passes a call of callee whose argument idx is x itself, or
 // (when unlessField != "") the branch on which x.unlessField is false.
-func (c *Ctx) SameObjAfter(fnName string, stores Sel, callee Sel, idx int, unlessField string) bool {
+func (c *Ctx) QaSameObjAfter(fnName string, stores Sel, callee Sel, idx int, unlessField string) bool {
 	rule := "call-after"
 	construct := fmt.Sprintf("%s: after [%s] always [%s on the same object]", fnName, stores.Name, callee.Name)
 	if unlessField != "" {
@@ -696,7 +696,7 @@ func (c *Ctx) SameObjAfter(fnName string, stores Sel, callee Sel, idx int, unles
 	}
 	rets := instrSet(Returns().F(c.P, fn))
 	for _, in := range ins {
-		obj := ObjOfFieldStore(in)
+		obj := QaObjOfFieldStore(in)
 		if obj == nil {
 			c.Undecided(rule, construct, "selected site is not a field store")
 			return false
@@ -707,8 +707,9 @@ func (c *Ctx) SameObjAfter(fnName string, stores Sel, callee Sel, idx int, unles
 				barriers[t] = true
 			}
 		}
+		cut := map[QaCFGEdge]bool{}
 		if unlessField != "" {
-			pred := c.P.IsLoadOf(unlessField)
+			pred := c.P.QaIsLoadOf(unlessField)
 			eachInstr(fn, func(x ssa.Instruction) {
 				ifi, ok := x.(*ssa.If)
 				if !ok {
@@ -719,9 +720,7 @@ func (c *Ctx) SameObjAfter(fnName string, stores Sel, callee Sel, idx int, unles
 					return
 				}
 				if fa, ok := u.X.(*ssa.FieldAddr); ok && fa.X == obj {
-					if f := firstInstr(ifi.Block().Succs[1]); f != nil {
-						barriers[f] = true
-					}
+					cut[QaCFGEdge{ifi.Block(), ifi.Block().Succs[1]}] = true
 				}
 			})
 		}
@@ -729,7 +728,7 @@ func (c *Ctx) SameObjAfter(fnName string, stores Sel, callee Sel, idx int, unles
 			c.Fail(rule, construct, InstrPos(in), fmt.Sprintf("no [%s] call takes the object written by `%s`", callee.Name, DescribeInstr(in)))
 			return false
 		}
-		if r, reach := canReach(posOf(in), false, rets, barriers); reach {
+		if r := qaReachCut(posOf(in), rets, barriers, cut); r != nil {
 			c.Fail(rule, construct, InstrPos(in), fmt.Sprintf("from `%s` the return at %s is reachable without [%s] on the same object", DescribeInstr(in), c.P.Pos(InstrPos(r)), callee.Name))
 			return false
 		}
@@ -738,9 +737,9 @@ func (c *Ctx) SameObjAfter(fnName string, stores Sel, callee Sel, idx int, unles
 	return true
 }
 
-// CallArgFieldIs: every selected call is dominated by the test
+// QaCallArgFieldIs: every selected call is dominated by the test
 // <argument idx>.field == k.
-func (c *Ctx) CallArgFieldIs(fnName string, sel Sel, idx int, field string, k int64) bool {
+func (c *Ctx) QaCallArgFieldIs(fnName string, sel Sel, idx int, field string, k int64) bool {
 	rule := "guard-before"
 	construct := fmt.Sprintf("%s: [%s] under arg%d.%s == %d", fnName, sel.Name, idx, field[strings.LastIndex(field, ".")+1:], k)
 	_, ins := c.sites(rule, fnName, sel)
@@ -753,7 +752,7 @@ func (c *Ctx) CallArgFieldIs(fnName string, sel Sel, idx int, field string, k in
 			c.Undecided(rule, construct, "site is not a call with that many arguments")
 			return false
 		}
-		if !c.P.SameObjFieldIs(in, ci.Common().Args[idx], field, k) {
+		if !c.P.QaSameObjFieldIs(in, ci.Common().Args[idx], field, k) {
 			c.Fail(rule, construct, InstrPos(in), fmt.Sprintf("`%s` is not dominated by that test; facts here: {%s}", DescribeInstr(in), factStrings(FactsAtInstr(in))))
 			return false
 		}
@@ -762,16 +761,16 @@ func (c *Ctx) CallArgFieldIs(fnName string, sel Sel, idx int, field string, k in
 	return true
 }
 
-// PhiLeaf is one non-phi value reaching a use through phis, together with
+// QaPhiLeaf is one non-phi value reaching a use through phis, together with
 // the control-flow edge (From → To) on which it is selected.
-type PhiLeaf struct {
+type QaPhiLeaf struct {
 	V        ssa.Value
 	From, To *ssa.BasicBlock
 }
 
-// PhiLeaves expands v through phis.
-func PhiLeaves_quica(v ssa.Value) []PhiLeaf {
-	var out []PhiLeaf
+// QaPhiLeaves expands v through phis.
+func QaPhiLeaves(v ssa.Value) []QaPhiLeaf {
+	var out []QaPhiLeaf
 	seen := map[*ssa.Phi]bool{}
 	var walk func(v ssa.Value, from, to *ssa.BasicBlock)
 	walk = func(v ssa.Value, from, to *ssa.BasicBlock) {
@@ -785,14 +784,14 @@ func PhiLeaves_quica(v ssa.Value) []PhiLeaf {
 			}
 			return
 		}
-		out = append(out, PhiLeaf{v, from, to})
+		out = append(out, QaPhiLeaf{v, from, to})
 	}
 	walk(v, nil, nil)
 	return out
 }
 
-// EdgeFacts returns the facts that hold when control passes from → to.
-func EdgeFacts_quica(from, to *ssa.BasicBlock) []Fact {
+// QaEdgeFacts returns the facts that hold when control passes from → to.
+func QaEdgeFacts(from, to *ssa.BasicBlock) []Fact {
 	if from == nil {
 		return nil
 	}
@@ -810,10 +809,10 @@ func EdgeFacts_quica(from, to *ssa.BasicBlock) []Fact {
 	return fs
 }
 
-// ClampedOrExempt: argument idx of every selected call is, on every phi
+// QaClampedOrExempt: argument idx of every selected call is, on every phi
 // path, either computed from a value satisfying clamp, or selected on a
 // control-flow edge on which the atom exempt holds (a stronger fact counts).
-func (c *Ctx) ClampedOrExempt(fnName string, sel Sel, idx int, clampDesc string, clamp func(ssa.Value) bool, exempt string) bool {
+func (c *Ctx) QaClampedOrExempt(fnName string, sel Sel, idx int, clampDesc string, clamp func(ssa.Value) bool, exempt string) bool {
 	rule := "clamp"
 	construct := fmt.Sprintf("%s: arg%d of [%s] is bounded by %s unless %s", fnName, idx, sel.Name, clampDesc, stripSpaces(exempt))
 	_, ins := c.sites(rule, fnName, sel)
@@ -831,12 +830,12 @@ func (c *Ctx) ClampedOrExempt(fnName string, sel Sel, idx int, clampDesc string,
 			c.Undecided(rule, construct, "site is not a call with that many arguments")
 			return false
 		}
-		for _, lf := range PhiLeaves_quica(stripConv_quica(ci.Common().Args[idx])) {
+		for _, lf := range QaPhiLeaves(qaStripConv(ci.Common().Args[idx])) {
 			n++
 			if DependsOn(lf.V, clamp) {
 				continue
 			}
-			if holds(EdgeFacts_quica(lf.From, lf.To), as[0], false) {
+			if holds(QaEdgeFacts(lf.From, lf.To), as[0], false) {
 				continue
 			}
 			c.Fail(rule, construct, InstrPos(in), fmt.Sprintf("the value `%s` reaches the call without passing %s and not under %s", Term(lf.V), clampDesc, exempt))
@@ -847,34 +846,34 @@ func (c *Ctx) ClampedOrExempt(fnName string, sel Sel, idx int, clampDesc string,
 	return true
 }
 
-// StripConv removes integer/type conversions around v.
-func StripConv_quica(v ssa.Value) ssa.Value { return stripConv_quica(v) }
+// QaStripConv removes integer/type conversions around v.
+func QaStripConv(v ssa.Value) ssa.Value { return qaStripConv(v) }
 
-// LinSub returns a − b + k.
-func LinSub(a, b Lin, k int64) Lin {
+// QaLinSub returns a − b + k.
+func QaLinSub(a, b Lin, k int64) Lin {
 	l := a.add(b, -1)
 	l.K += k
 	return l
 }
 
-// FactsInclude reports whether the facts dominating `at` include the atom
+// QaFactsInclude reports whether the facts dominating `at` include the atom
 // exactly (exact) or a fact implying it.
-func FactsInclude(at ssa.Instruction, a Atom, exact bool) bool {
+func QaFactsInclude(at ssa.Instruction, a Atom, exact bool) bool {
 	return holds(FactsAtInstr(at), a, exact)
 }
 
-// FieldTest is a branch comparing a field of some object with a constant.
-type FieldTest struct {
+// QaFieldTest is a branch comparing a field of some object with a constant.
+type QaFieldTest struct {
 	If     *ssa.If
 	Obj    ssa.Value       // x in x.field
 	EqSucc *ssa.BasicBlock // successor on which x.field == k
 	NeSucc *ssa.BasicBlock
 }
 
-// FieldTests lists the branches of fn of the form x.field ==/!= k.
-func (p *Prog) FieldTests(fn *ssa.Function, field string, k int64) []FieldTest {
+// QaFieldTests lists the branches of fn of the form x.field ==/!= k.
+func (p *Prog) QaFieldTests(fn *ssa.Function, field string, k int64) []QaFieldTest {
 	fv := p.Field(field)
-	var out []FieldTest
+	var out []QaFieldTest
 	eachInstr(fn, func(in ssa.Instruction) {
 		ifi, ok := in.(*ssa.If)
 		if !ok {
@@ -886,15 +885,15 @@ func (p *Prog) FieldTests(fn *ssa.Function, field string, k int64) []FieldTest {
 		}
 		for i, side := range []ssa.Value{b.X, b.Y} {
 			other := []ssa.Value{b.Y, b.X}[i]
-			u, ok := stripConv_quica(side).(*ssa.UnOp)
+			u, ok := qaStripConv(side).(*ssa.UnOp)
 			if !ok || u.Op != token.MUL || fieldOfAddr(u.X) != fv || fv == nil {
 				continue
 			}
-			s, ok := ConstSet(other)
+			s, ok := QaConstSet(other)
 			if !ok || len(s) != 1 || !s[k] {
 				continue
 			}
-			ft := FieldTest{If: ifi, Obj: u.X.(*ssa.FieldAddr).X, EqSucc: ifi.Block().Succs[0], NeSucc: ifi.Block().Succs[1]}
+			ft := QaFieldTest{If: ifi, Obj: u.X.(*ssa.FieldAddr).X, EqSucc: ifi.Block().Succs[0], NeSucc: ifi.Block().Succs[1]}
 			if b.Op == token.NEQ {
 				ft.EqSucc, ft.NeSucc = ft.NeSucc, ft.EqSucc
 			}
@@ -904,8 +903,8 @@ func (p *Prog) FieldTests(fn *ssa.Function, field string, k int64) []FieldTest {
 	return out
 }
 
-// FirstOf is a selector for the first instruction of the given blocks.
-func FirstOf(name string, blocks ...*ssa.BasicBlock) Sel {
+// QaFirstOf is a selector for the first instruction of the given blocks.
+func QaFirstOf(name string, blocks ...*ssa.BasicBlock) Sel {
 	return Sel{name, func(p *Prog, fn *ssa.Function) []ssa.Instruction {
 		var out []ssa.Instruction
 		for _, b := range blocks {
@@ -917,7 +916,161 @@ func FirstOf(name string, blocks ...*ssa.BasicBlock) Sel {
 	}}
 }
 
-// Instrs is a selector for fixed instructions.
-func Instrs(name string, ins ...ssa.Instruction) Sel {
-	return Sel{name, func(p *Prog, fn *ssa.Function) []ssa.Instruction { return ins }}
+// QaBetween: no `to` site is reachable from a `from` site without passing a
+// `via` site.
+func (c *Ctx) QaBetween(fnName string, from, to, via Sel, inclusive bool) bool {
+	rule := "pass-through"
+	construct := fmt.Sprintf("%s: between [%s] and [%s] always [%s]", fnName, from.Name, to.Name, via.Name)
+	fn, ins := c.sites(rule, fnName, from)
+	if ins == nil {
+		return false
+	}
+	targets := instrSet(to.F(c.P, fn))
+	if len(targets) == 0 {
+		c.Undecided(rule, construct, "no ["+to.Name+"] site in this function")
+		return false
+	}
+	barriers := instrSet(via.F(c.P, fn))
+	for _, in := range ins {
+		if t, reach := canReach(posOf(in), inclusive, targets, barriers); reach {
+			c.Fail(rule, construct, InstrPos(in), fmt.Sprintf("from `%s` the site `%s` (%s) is reachable without [%s]", DescribeInstr(in), DescribeInstr(t), c.P.Pos(InstrPos(t)), via.Name))
+			return false
+		}
+	}
+	c.OK(rule, construct, fmt.Sprintf("%d start site(s), %d target(s), %d via site(s)", len(ins), len(targets), len(barriers)))
+	return true
+}
+
+// QaCFGEdge is a control-flow edge.
+type QaCFGEdge struct{ From, To *ssa.BasicBlock }
+
+// QaNilEdgesOn lists, for every branch comparing with nil a value computed
+// from a value satisfying pred, the edge taken when it is nil.
+func QaNilEdgesOn(fn *ssa.Function, pred func(ssa.Value) bool) []QaCFGEdge {
+	var out []QaCFGEdge
+	eachInstr(fn, func(in ssa.Instruction) {
+		ifi, ok := in.(*ssa.If)
+		if !ok {
+			return
+		}
+		b, ok := ifi.Cond.(*ssa.BinOp)
+		if !ok || b.Op != token.EQL && b.Op != token.NEQ {
+			return
+		}
+		for i, side := range []ssa.Value{b.X, b.Y} {
+			other := []ssa.Value{b.Y, b.X}[i]
+			if !isNilConst(other) || !DependsOn(side, pred) {
+				continue
+			}
+			succ := ifi.Block().Succs[0]
+			if b.Op == token.NEQ {
+				succ = ifi.Block().Succs[1]
+			}
+			out = append(out, QaCFGEdge{ifi.Block(), succ})
+		}
+	})
+	return out
+}
+
+// QaAtomEdges lists the edges on which the atom holds (either polarity of a
+// branch testing exactly it).
+func (p *Prog) QaAtomEdges(fn *ssa.Function, spec string) []QaCFGEdge {
+	a, err := p.ParseAtom(spec)
+	if err != nil {
+		return nil
+	}
+	var out []QaCFGEdge
+	eachInstr(fn, func(in ssa.Instruction) {
+		ifi, ok := in.(*ssa.If)
+		if !ok {
+			return
+		}
+		ca := CondAtom(ifi.Cond)
+		if SameAtom(ca, a) {
+			out = append(out, QaCFGEdge{ifi.Block(), ifi.Block().Succs[0]})
+		} else if SameAtom(ca.Negate(), a) {
+			out = append(out, QaCFGEdge{ifi.Block(), ifi.Block().Succs[1]})
+		}
+	})
+	return out
+}
+
+// QaBetweenE is QaBetween with additional barrier edges: no `to` site is
+// reachable from a `from` site without passing a `via` site or one of the edges.
+func (c *Ctx) QaBetweenE(fnName string, from, to, via Sel, edgeDesc string, edges []QaCFGEdge) bool {
+	rule := "pass-through"
+	construct := fmt.Sprintf("%s: between [%s] and [%s] always [%s] or %s", fnName, from.Name, to.Name, via.Name, edgeDesc)
+	fn, ins := c.sites(rule, fnName, from)
+	if ins == nil {
+		return false
+	}
+	targets := instrSet(to.F(c.P, fn))
+	if len(targets) == 0 {
+		c.Undecided(rule, construct, "no ["+to.Name+"] site in this function")
+		return false
+	}
+	barriers := instrSet(via.F(c.P, fn))
+	cut := map[QaCFGEdge]bool{}
+	for _, e := range edges {
+		cut[e] = true
+	}
+	for _, in := range ins {
+		seen := map[*ssa.BasicBlock]bool{}
+		var hit ssa.Instruction
+		var run func(b *ssa.BasicBlock, i int)
+		run = func(b *ssa.BasicBlock, i int) {
+			for ; i < len(b.Instrs) && hit == nil; i++ {
+				x := b.Instrs[i]
+				if barriers[x] {
+					return
+				}
+				if targets[x] {
+					hit = x
+					return
+				}
+			}
+			for _, s := range b.Succs {
+				if hit == nil && !cut[QaCFGEdge{b, s}] && !seen[s] {
+					seen[s] = true
+					run(s, 0)
+				}
+			}
+		}
+		p := posOf(in)
+		run(p.b, p.i+1)
+		if hit != nil {
+			c.Fail(rule, construct, InstrPos(in), fmt.Sprintf("from `%s` the site `%s` (%s) is reachable without [%s] and without %s", DescribeInstr(in), DescribeInstr(hit), c.P.Pos(InstrPos(hit)), via.Name, edgeDesc))
+			return false
+		}
+	}
+	c.OK(rule, construct, fmt.Sprintf("%d start site(s), %d target(s), %d via site(s), %d edge(s)", len(ins), len(targets), len(barriers), len(edges)))
+	return true
+}
+
+// qaReachCut reports whether a target is reachable strictly after start
+// without passing a barrier instruction or a cut edge.
+func qaReachCut(start ipos, targets, barriers map[ssa.Instruction]bool, cut map[QaCFGEdge]bool) ssa.Instruction {
+	seen := map[*ssa.BasicBlock]bool{}
+	var hit ssa.Instruction
+	var run func(b *ssa.BasicBlock, i int)
+	run = func(b *ssa.BasicBlock, i int) {
+		for ; i < len(b.Instrs) && hit == nil; i++ {
+			x := b.Instrs[i]
+			if barriers[x] {
+				return
+			}
+			if targets[x] {
+				hit = x
+				return
+			}
+		}
+		for _, s := range b.Succs {
+			if hit == nil && !cut[QaCFGEdge{b, s}] && !seen[s] {
+				seen[s] = true
+				run(s, 0)
+			}
+		}
+	}
+	run(start.b, start.i+1)
+	return hit
 }
